@@ -213,6 +213,13 @@ StepRules(st, self, types, cache) ==
                   \/ (\E i \in 1..Len(st.tr) : (st.tr[i].call = "resume" /\ st.tr[i].msg.kind = "Complete" /\ st.tr[i].msg.accepted /\ ~st.tr[i].msg.paused)) ))
            => post.status \in {"Completing", "Completed"}
         THEN {} ELSE {"C01.finalMeansCompleting"})
+  (* ... and the other way round: when the transport reports the transfer finished, the responder's channel moves on (completes, or holds for finalization)  *)
+  (* only after the Complete message - accepted, paused exactly when it holds - has been handed to the network                                                *)
+  \cup (IF (k = "OnChannelCompleted" /\ has /\ ~amInit /\ ~term /\ st.panic = "" /\ pre.status \notin {"Completing","Completed","Finalizing"} \cup Cleanup
+             /\ post.status \in {"Completing","Completed","Finalizing"})
+           => (\E i \in 1..Len(sends) : (sends[i].ok /\ sends[i].msg.kind = "Complete" /\ sends[i].msg.accepted /\ sends[i].to = id.initiator
+                                           /\ sends[i].msg.paused = (post.status = "Finalizing")))
+        THEN {} ELSE {"C01.tellsBeforeCompleting"})
   (* ---------------- C09 (manager level) ---------------- *)
   \cup (IF (k = "Close" /\ has /\ ~term)
            => /\ st.ret = "nil" /\ Len(TrOf(st.tr, "close")) = 1
@@ -259,6 +266,13 @@ StepRules(st, self, types, cache) ==
   \cup (IF (k = "SendVoucherResult" /\ has /\ ~term /\ ~amInit)
            => (IF s.sendFail = << >> THEN post.results = Append(pre.results, m.v) ELSE post.results = pre.results) /\ post.vouchers = pre.vouchers
         THEN {} ELSE {"C19.recordAfterSend"})
+  (* ... judged on what was REALLY handed to the network: an entry that appears in the log was sent to the counterparty, successfully, in this call *)
+  \cup (IF (k = "SendVoucher" /\ has /\ ~term /\ Len(post.vouchers) > Len(pre.vouchers))
+           => (\E i \in 1..Len(sends) : (sends[i].ok /\ sends[i].msg.isReq /\ sends[i].msg.kind = "Voucher" /\ sends[i].msg.v = m.v /\ sends[i].msg.tid = id.tid /\ sends[i].to = OtherOf(id)))
+        THEN {} ELSE {"C19.sentBeforeRecorded"})
+  \cup (IF (k = "SendVoucherResult" /\ has /\ ~term /\ Len(post.results) > Len(pre.results))
+           => (\E i \in 1..Len(sends) : (sends[i].ok /\ ~sends[i].msg.isReq /\ sends[i].msg.kind \in {"VoucherResult","Complete"} /\ sends[i].msg.v = m.v /\ sends[i].msg.tid = id.tid /\ sends[i].to = OtherOf(id)))
+        THEN {} ELSE {"C19.sentBeforeRecorded"})
   \cup (IF (isReqStim /\ m.kind = "Voucher" /\ has /\ ~term) => (post.vouchers = Append(pre.vouchers, m.v) /\ post.results = pre.results) THEN {} ELSE {"C19.recordReceived"})
   \cup (IF (isRespStim /\ has /\ ~term /\ m.kind \in {"New","Restart","VoucherResult","Complete"})
            => (post.results = (IF m.v # "" THEN Append(pre.results, m.v) ELSE pre.results) /\ post.vouchers = pre.vouchers)
